@@ -383,7 +383,7 @@ fn one_run(seed: u64, run: u64, max_positions: usize) -> RunResult {
     let knobs = random_knobs(&mut rng);
     if run % 10 == 9 {
         // nested syntax definitions in failing forms
-        let f = macro_leak_case(&mut rng, run);
+        let f = if run % 20 == 9 { macro_leak_case(&mut rng, run) } else { unbound_then_defined_case(&mut rng, run) };
         let mut case = Case::new(vec![]);
         case.knobs = knobs;
         let mut res = RunResult {
@@ -596,6 +596,43 @@ fn macro_leak_case(rng: &mut Rng, run: u64) -> Faulted {
         vm_texts: texts,
         twin_forms: ref_forms,
         kind,
+    }
+}
+
+/// A procedure compiled while a global it references is still undefined; calls fail with an
+/// unbound variable (k times); then the global is defined (or assigned) and the old procedure
+/// must work. No fault is injected: the failures are the program's own.
+fn unbound_then_defined_case(rng: &mut Rng, run: u64) -> Faulted {
+    let n = run % 89;
+    let k = 1 + rng.usize(3);
+    let mut texts: Vec<String> = setup_forms().iter().map(|f| f.text()).collect();
+    texts.push(format!("(define (user{n} x) (+ x (late{n} x)))", n = n));
+    texts.push(format!("(define (deep-user{n} d x) (if (= d 0) (list 'v (late-var{n}) x) (deep-user{n} (- d 1) x)))", n = n));
+    for i in 0..k {
+        texts.push(format!("(user{} {})", n, i));
+        if rng.chance(1, 2) {
+            texts.push(format!("(call/cc (lambda (esc) (deep-user{} 2 {})))", n, i));
+        }
+        if rng.chance(1, 2) {
+            texts.push(format!("late{}", n));
+        }
+    }
+    if rng.chance(1, 2) {
+        texts.push(format!("(define (late{n} x) (* x 2))", n = n));
+    } else {
+        texts.push(format!("(define late{n} (lambda (x) (* x 2)))", n = n));
+    }
+    texts.push(format!("(define late-var{n} (lambda () 'now-bound))", n = n));
+    texts.push(format!("(user{} 5)", n));
+    texts.push(format!("(deep-user{} 3 'x)", n));
+    texts.push(format!("(late{} 21)", n));
+    texts.push("(%probe-deep 1 5)".into());
+    let forms: Vec<Sx> = texts.iter().map(|t| read_one(t).expect("template reads")).collect();
+    Faulted {
+        ref_forms: forms.clone(),
+        vm_texts: texts,
+        twin_forms: forms,
+        kind: FaultKind::Unbound,
     }
 }
 
